@@ -100,16 +100,17 @@ EXECUTORS = {
 }
 
 
-def _setup_shutdown(cls_name):
+def _setup_shutdown(cls_name, default_wait=False):
     def setup(engine, st):
         ex = sym_inst(engine, st, cls_name, "executor")
         sid = Val.id(ex.t)
-        wait = sym_val(engine, st, "any", "wait")
+        # default_wait: shutdown() called without arguments - the documented default is wait=True
+        wait = sym_val(engine, st, "any", "wait") if not default_wait else Z(Val.boolv(z3.BoolVal(True)), "any")
         kw = ArgPack(fresh("kwargs", Val), "kwargs")
         h = engine.typed(st, st.get("_shutdown", sid), INST("ShutdownHelper"))
         engine.cfg.helpers = [Val.id(h.t)]
         st.assume(Val.is_boolv(st.get("is_shutdown", Val.id(h.t))))
-        return [ex, wait], {}, {"starkw": kw, "sid": sid, "ex": ex, "wait": wait, "kw": kw, "hid": Val.id(h.t), "cls": cls_name}
+        return ([ex, wait] if not default_wait else [ex]), {}, {"starkw": kw, "sid": sid, "ex": ex, "wait": wait, "kw": kw, "hid": Val.id(h.t), "cls": cls_name}
     return setup
 
 
@@ -183,6 +184,8 @@ UNITS = [
 ]
 for c, (qn, tf, ef) in EXECUTORS.items():
     UNITS.append(Unit("%s.shutdown" % c, qn, ["C11", "C03", "C04", "C12", "C18", "C20"], _setup_shutdown(c), _post_shutdown(c), cfg=_cfg_shutdown, self_cls=c))
+    if c != "FlatMapExecutor":
+        UNITS.append(Unit("%s.shutdown[no argument: wait defaults to True]" % c, qn, ["C11"], _setup_shutdown(c, True), _post_shutdown(c), cfg=_cfg_shutdown, self_cls=c))
 
 
 # ---- submit() of the pass-through executors: gate, forwarding, refusal after shutdown -------------------
@@ -268,7 +271,7 @@ def _cfg_cos():
         ok = len(calls) == 1
         out = [("every future of the snapshot gets cancel() exactly once", z3.And(z3.BoolVal(ok), calls[0].recv == Val.id(x)) if ok else z3.BoolVal(False))]
         if ok:
-            out.append(("SHUTDOWN_CANCEL counts exactly the cancels that succeeded", z3.If(calls[0].ret, z3.BoolVal(len(incs) == 1), z3.BoolVal(len(incs) == 0))))
+            out.append(("SHUTDOWN_CANCEL counts exactly the cancels that succeeded", z3.If(calls[0].ret, z3.BoolVal(len(incs) == 1 and incs[0].meth == "inc"), z3.BoolVal(len(incs) == 0))))
         return out
 
     def at_entry(engine, st, fr, ctx):
@@ -297,6 +300,11 @@ def _post_cos_shutdown(engine, st, ctx, out):
     first = z3.Not(acq)
     cl.append(("the wrapped executor is shut down exactly once, by the first shutdown() only, after the cancellation sweep", "PC",
                z3.If(first, z3.BoolVal(len(downs) == 1 and bool(loops) and downs[0][0] > loops[-1]), z3.BoolVal(len(downs) == 0)), ["C10", "C11"]))
+    from .base import label_key
+    gauge = [e for e in st.trace if e.kind == "metric" and e.callee == "EXEC_INPROGRESS"]
+    key = label_key(engine, st, "cancel_on_shutdown", st.get("_name", sid))
+    cl.append(("EXEC_INPROGRESS gauge is decremented exactly once, by the first shutdown(), on the cell the constructor incremented", "PC",
+               z3.If(first, z3.And(z3.BoolVal(len(gauge) == 1 and gauge[0].meth == "dec"), gauge[0].args[0] == key if gauge else False), z3.BoolVal(len(gauge) == 0)), ["C20"]))
     snap = st.ghost.get("cos@copy")
     if downs:
         cl.append(("the snapshot is taken only after the flag was set (no future can be accepted afterwards)", "PC",
@@ -335,6 +343,8 @@ def _post_cos_submit(engine, st, ctx, out):
 UNITS += [
     Unit("CancelOnShutdownExecutor.shutdown", "cancel_on_shutdown.CancelOnShutdownExecutor.shutdown", ["C10", "C11", "C04", "C18", "C20"],
          _setup_shutdown("CancelOnShutdownExecutor"), _post_cos_shutdown, cfg=_cfg_cos, self_cls="CancelOnShutdownExecutor"),
+    Unit("CancelOnShutdownExecutor.shutdown[no argument: wait defaults to True]", "cancel_on_shutdown.CancelOnShutdownExecutor.shutdown", ["C10", "C11"],
+         _setup_shutdown("CancelOnShutdownExecutor", True), _post_cos_shutdown, cfg=_cfg_cos, self_cls="CancelOnShutdownExecutor"),
     Unit("CancelOnShutdownExecutor.submit", "cancel_on_shutdown.CancelOnShutdownExecutor.submit", ["C10", "C11", "C01", "C12"],
          _setup_submit("CancelOnShutdownExecutor"), _post_cos_submit, cfg=_cfg_cos, self_cls="CancelOnShutdownExecutor"),
 ]
